@@ -138,7 +138,7 @@ CLASSES["PartitionRecords"].fields.update({"_key_deserializer": Opt(Ref("Deseria
                                             "_records_iterator": Opaque("RecordIterator")})
 
 
-@contract(FM + ":PartitionRecords.__init__", ["C08", "C03"])
+@contract(FM + ":PartitionRecords.__init__", ["C08", "C03", "C04"])
 def _(c):
     c.self_("PartitionRecords")
     c.no_class_inv = True
@@ -164,6 +164,27 @@ def _(c):
     for lbl, e in CLASSES["PartitionRecords"].invariants:
         c.ensures("establishes:" + lbl, e)
     c.ensures("every-listed-transaction-is-kept", "len(self._aborted_transactions) == (0 if aborted_transactions is None else len(aborted_transactions))")
+    c.replay_fn = lambda model, ob=None: {"script": _PARTITION_RECORDS_SCRIPT}
+
+
+# replay: real PartitionRecords objects over every ordering of small aborted-transaction lists
+_PARTITION_RECORDS_SCRIPT = '''
+import itertools
+from aiokafka.consumer.fetcher import PartitionRecords
+from aiokafka.record.memory_records import MemoryRecords
+from aiokafka.structs import TopicPartition
+bad = []
+for n in (1, 2, 3):
+    for pids in itertools.product((1, 2, 3), repeat=n):
+        for offs in itertools.permutations((0, 4, 9, 13)[:n + 1], n):
+            given = list(zip(pids, offs))
+            pr = PartitionRecords(TopicPartition("t", 0), MemoryRecords(b""), given, 0, None, None, True, 1)
+            kept = list(pr._aborted_transactions)
+            if sorted(kept) != sorted(given) or [o for _, o in kept] != sorted(o for _, o in kept):
+                bad.append((given, kept))
+VIOLATED = bool(bad)
+DETAIL = "aborted-transaction index not the given entries in the order of their first offsets (given, kept): %r" % (bad[:3],) if bad else "ok"
+'''
 
 
 @specfn("lambda_is_second_component")
@@ -209,7 +230,7 @@ def _(c):
         c.ensures("establishes:" + lbl, e)
     c.ensures("starts-uninitialised-with-nothing-registered",
               "self.state == TransactionState.UNINITIALIZED and self._pid_and_epoch[0] == -1 and self._pid_and_epoch[1] == -1"
-              " and len(self._pending_txn_offsets) == 0 and self._txn_consumer_group is None"
+              " and len(self._pending_txn_offsets) == 0 and self._txn_consumer_group is None and self._abortable_error is None"
               " and forall(TP, lambda q: q not in self._txn_partitions and q not in self._pending_txn_partitions)"
               " and self.transactional_id == transactional_id")
 
